@@ -47,6 +47,10 @@ def plan(tier, prop):
                 and sp["id"].endswith(("/direct", "/helper2")):
             # the user turns list / dict tracking off for one evaluation and back on: later evaluations must see edits again
             items.append((sp, ["eval_root", "direct"], "memory", 3, {prop}, (True, ("inproc", "optflip"))))
+        if prop in ("C01", "C03") and sp["key"].startswith(("drop_helper", "body|pos=helper|form=plain|ctx=stmt", "var|type=int|access=name")) \
+                and (sp["key"].startswith("drop_helper") or sp["id"].endswith(("/helper2/plain/stmt/main", "/direct"))):
+            # edits followed by a re-import of the program's modules in the same process
+            items.append((sp, ["eval_root", "direct"], "memory", 2 if tier == "quick" else 3, {prop}, (True, ("inproc", "reimport"))))
         if tier == "quick":
             qents = ents if core else [e for e in ents if e in ("eval_root", "direct")]
             if prop != "C02":
